@@ -8,6 +8,11 @@ import os
 import sys
 
 
+CODEC_LABELS = ["iso-8859-8-i", "iso-8859-8-e", "windows-874", "windows-31j", "x-sjis", "x-gbk", "x-user-defined", "cp-850", "unicode-1-1-utf-7", "x-mac-roman",
+                "8bit", "binary", "unknown-8bit", "x-unknown", "ansi_x3.110-1983", "utf8mb4", "cesu-8", "x-utf-16le-bom", "iso-2022-jp-ms", "x-euc-jp", "ms932",
+                "windows-1252", "latin1", "utf-8"]
+
+
 def env_fingerprint():
     import csv
     import decimal
@@ -21,7 +26,15 @@ def env_fingerprint():
         maps = hashlib.sha1(repr((sorted(mt.types_map[0].items()), sorted(mt.types_map[1].items()), sorted(mt.suffix_map.items()),
                                   sorted(mt.encodings_map.items()))).encode()).hexdigest()[:12]
     ctx = decimal.getcontext()
-    return {"recursionlimit": sys.getrecursionlimit(), "mimetypes_inited": mimetypes.inited, "mimetypes_maps": maps,
+    import codecs
+    looked_up = {}
+    for label in CODEC_LABELS:  # the codec registry cannot be listed; a fixed set of labels shows whether search functions were added
+        try:
+            looked_up[label] = codecs.lookup(label).name
+        except LookupError:
+            looked_up[label] = None
+    return {"codec_registry_probe": hashlib.sha1(repr(sorted(looked_up.items())).encode()).hexdigest()[:12] + ":" + ",".join(k for k, v in sorted(looked_up.items()) if v),
+            "recursionlimit": sys.getrecursionlimit(), "mimetypes_inited": mimetypes.inited, "mimetypes_maps": maps,
             "decimal": (ctx.prec, ctx.rounding), "locale": locale.setlocale(locale.LC_ALL), "csv_field_size_limit": csv.field_size_limit(),
             "socket_default_timeout": socket.getdefaulttimeout(), "warnings_filters": len(warnings.filters), "cwd": os.getcwd(),
             "sys_path_len": len(sys.path), "environ": hashlib.sha1(repr(sorted(os.environ.items())).encode()).hexdigest()[:12],
